@@ -1,7 +1,146 @@
-(* family 13, part A: stub, to be filled *)
+(* family 13, part A (ops 1300-1339): EOF, ACK, Prompt, Keep Alive PDUs and the
+   FileDirectivePduBase they are built on. *)
 From Coq Require Import ZArith List Bool.
-From SP Require Import Base.Result Base.Bytes Run.Marshal.
+From SP Require Import Base.Result Base.Bytes Run.Marshal Model.PduHeader Run.DispHdr
+  Model.FileDirective Model.Lv Model.Tlv Model.Eof Model.Ack Model.Prompt Model.KeepAlive
+  Spec.PduHeaderSpec Spec.PduASpec.
 Import ListNotations.
 Open Scope Z_scope.
 
-Definition run_pdu_a (op : Z) (a : args) : args := [[1; 97]].
+Definition pack_res_a (r : res bytes) : list Z :=
+  match r with Ok b => 0 :: b | Err e => [1; err_code e] end.
+
+(* ---------------- EOF ----------------
+   case line: ids, flags (as for family 12), checksum octets, [file_size; condition_code],
+   fault location ([0] = None, 1 :: entity id octets = EntityIdTlv(octets)) *)
+Definition fault_of_args (l : list Z) : res (option tlv) :=
+  match l with
+  | 1 :: v => do t <- entity_new v; Ok (Some t)
+  | _ => Ok None
+  end.
+Definition fault_enc (o : option tlv) : list Z :=
+  match o with None => [0] | Some t => 1 :: tlv_value t end.
+
+Definition eof_of_args (a : args) : res (EofPdu * PduConfig) :=
+  do c <- conf_of_args (lst 0 a) (lst 1 a);
+  do fl <- fault_of_args (lst 4 a);
+  eof_new c (lst 2 a) (int 3 0 a) fl (int 3 1 a).
+
+Definition fdir_fields (f : fdir) : args := hdr_fields (fd_hdr f).
+
+Definition eof_fields (p : EofPdu) : args :=
+  fdir_fields (eof_fd p) ++
+  [[fd_type (eof_fd p); eof_cc p; eof_size p]; eof_checksum p; fault_enc (eof_fault p)].
+
+(* history of fault_location setter calls: each argument list is [0] (None) or 1 :: octets *)
+Fixpoint eof_apply (p : EofPdu) (ops : list (list Z)) : res EofPdu :=
+  match ops with
+  | [] => Ok p
+  | o :: r => do fl <- fault_of_args o; do p' <- eof_set_fault p fl; eof_apply p' r
+  end.
+
+Definition eof_params_of_args (a : args) : EofParams :=
+  {| ep_cc := int 3 1 a; ep_checksum := lst 2 a; ep_size := int 3 0 a;
+     ep_fault := match lst 4 a with 1 :: v => Some v | _ => None end |}.
+
+(* ---------------- ACK: ids, flags, [acked directive code; condition code; transaction status] *)
+Definition ack_of_args (a : args) : res (AckPdu * PduConfig) :=
+  do c <- conf_of_args (lst 0 a) (lst 1 a);
+  ack_new c (int 2 0 a) (int 2 1 a) (int 2 2 a).
+Definition ack_fields (p : AckPdu) : args :=
+  fdir_fields (ack_fd p) ++ [[fd_type (ack_fd p); ack_code p; ack_subtype p; ack_cc p; ack_status p]].
+
+(* ---------------- Prompt: ids, flags, [response_required] *)
+Definition prompt_of_args (a : args) : res (PromptPdu * PduConfig) :=
+  do c <- conf_of_args (lst 0 a) (lst 1 a);
+  prompt_new c (int 2 0 a).
+Definition prompt_fields (p : PromptPdu) : args :=
+  fdir_fields (pr_fd p) ++ [[fd_type (pr_fd p); pr_rr p]].
+
+(* ---------------- Keep Alive: ids, flags, [progress] *)
+Definition ka_of_args (a : args) : res (KeepAlivePdu * PduConfig) :=
+  do c <- conf_of_args (lst 0 a) (lst 1 a);
+  ka_new c (int 2 0 a).
+Definition ka_fields (p : KeepAlivePdu) : args :=
+  fdir_fields (ka_fd p) ++ [[fd_type (ka_fd p); ka_progress p]].
+(* history of file_flag setter calls: each argument list is [flag] *)
+Fixpoint ka_apply (p : KeepAlivePdu) (ops : list (list Z)) : res KeepAlivePdu :=
+  match ops with
+  | [] => Ok p
+  | o :: r => do p' <- ka_set_file_flag p (nth 0 o 0); ka_apply p' r
+  end.
+
+Definition conf_after (c : PduConfig) : args := [conf_ids c; conf_flags c].
+
+Definition run_pdu_a (op : Z) (a : args) : args :=
+  match op with
+  (* EofPdu(conf, checksum, size, fault, cc): fields, then the caller's PduConfig afterwards *)
+  | 1300 => ret (fun r => eof_fields (fst r) ++ conf_after (snd r)) (eof_of_args a)
+  | 1301 => ret (fun b => [b]) (do r <- eof_of_args a; eof_pack (fst r))
+  | 1302 => ret eof_fields (eof_unpack (lst 0 a))
+  | 1303 => ret (fun b => [b]) (do p <- eof_unpack (lst 0 a); eof_pack p)
+  (* p = EofPdu(...); p2 = unpack(p.pack() ++ suffix): [p2 == p], fields of p2, p2.pack() *)
+  | 1304 => ret (fun r => r)
+              (do r <- eof_of_args a;
+               do b <- eof_pack (fst r);
+               do p2 <- eof_unpack (b ++ lst 5 a);
+               do e <- eof_eqb p2 (fst r);
+               Ok ([b2z e] :: eof_fields p2 ++ [pack_res_a (eof_pack p2)]))
+  (* constructor, then a history of fault_location setter calls: fields, packet_len, pack twice *)
+  | 1305 => ret (fun p => eof_fields p ++ [[eof_packet_len p]; pack_res_a (eof_pack p); pack_res_a (eof_pack p)])
+              (do r <- eof_of_args a; eof_apply (fst r) (skipn 5 a))
+  (* AckPdu *)
+  | 1310 => ret (fun r => ack_fields (fst r) ++ conf_after (snd r)) (ack_of_args a)
+  | 1311 => ret (fun b => [b]) (do r <- ack_of_args a; ack_pack (fst r))
+  | 1312 => ret ack_fields (ack_unpack (lst 0 a))
+  | 1313 => ret (fun b => [b]) (do p <- ack_unpack (lst 0 a); ack_pack p)
+  | 1314 => ret (fun r => r)
+              (do r <- ack_of_args a;
+               do b <- ack_pack (fst r);
+               do p2 <- ack_unpack (b ++ lst 3 a);
+               Ok ([b2z (ack_eqb p2 (fst r))] :: ack_fields p2 ++ [pack_res_a (ack_pack p2)]))
+  (* PromptPdu *)
+  | 1315 => ret (fun r => prompt_fields (fst r) ++ conf_after (snd r)) (prompt_of_args a)
+  | 1316 => ret (fun b => [b]) (do r <- prompt_of_args a; prompt_pack (fst r))
+  | 1317 => ret prompt_fields (prompt_unpack (lst 0 a))
+  | 1318 => ret (fun b => [b]) (do p <- prompt_unpack (lst 0 a); prompt_pack p)
+  | 1319 => ret (fun r => r)
+              (do r <- prompt_of_args a;
+               do b <- prompt_pack (fst r);
+               do p2 <- prompt_unpack (b ++ lst 3 a);
+               Ok ([b2z (prompt_eqb p2 (fst r))] :: prompt_fields p2 ++ [pack_res_a (prompt_pack p2)]))
+  (* KeepAlivePdu *)
+  | 1320 => ret (fun r => ka_fields (fst r) ++ conf_after (snd r)) (ka_of_args a)
+  | 1321 => ret (fun b => [b]) (do r <- ka_of_args a; ka_pack (fst r))
+  | 1322 => ret ka_fields (ka_unpack (lst 0 a))
+  | 1323 => ret (fun b => [b]) (do p <- ka_unpack (lst 0 a); ka_pack p)
+  | 1324 => ret (fun r => r)
+              (do r <- ka_of_args a;
+               do b <- ka_pack (fst r);
+               do p2 <- ka_unpack (b ++ lst 3 a);
+               Ok ([b2z (ka_eqb p2 (fst r))] :: ka_fields p2 ++ [pack_res_a (ka_pack p2)]))
+  (* constructor, then a history of file_flag setter calls: fields, packet_len, pack twice *)
+  | 1325 => ret (fun p => ka_fields p ++ [[ka_packet_len p]; pack_res_a (ka_pack p); pack_res_a (ka_pack p)])
+              (do r <- ka_of_args a; ka_apply (fst r) (skipn 3 a))
+  (* FileDirectivePduBase.unpack(data): header fields, directive code, header_len *)
+  | 1326 => ret (fun f => fdir_fields f ++ [[fd_type f; fdir_header_len f; fdir_param_len f]]) (fdir_unpack (lst 0 a))
+  (* FileDirectivePduBase(conf, code, param_len).pack() *)
+  | 1327 => ret (fun b => [b])
+              (do c <- conf_of_args (lst 0 a) (lst 1 a);
+               do f <- fdir_new c (int 2 0 a) (int 2 1 a); fdir_pack f)
+  (* FileDirectivePduBase(conf, 10, 0)._verify_file_len(file_size) *)
+  | 1328 => ret (fun _ => [])
+              (do c <- conf_of_args (lst 0 a) (lst 1 a);
+               do f <- fdir_new c DT_NONE 0; fdir_verify_file_len f (int 2 0 a))
+  (* FileDirectivePduBase(conf, 10, 0).parse_fss_field(raw, idx) *)
+  | 1329 => ret (fun r => [[fst r; snd r]])
+              (do c <- conf_of_args (lst 0 a) (lst 1 a);
+               do f <- fdir_new c DT_NONE 0; fdir_parse_fss f (lst 2 a) (int 3 0 a))
+  (* Spec side (independent oracle): the layouts of (conf fields, parameters) *)
+  | 1330 => [[0]; eof_layout (hdr_conf_raw (lst 0 a) (lst 1 a)) (eof_params_of_args a)]
+  | 1331 => [[0]; ack_layout (hdr_conf_raw (lst 0 a) (lst 1 a))
+                    {| ap_code := int 2 0 a; ap_cc := int 2 1 a; ap_status := int 2 2 a |}]
+  | 1332 => [[0]; prompt_layout (hdr_conf_raw (lst 0 a) (lst 1 a)) (int 2 0 a)]
+  | 1333 => [[0]; ka_layout (hdr_conf_raw (lst 0 a) (lst 1 a)) (int 2 0 a)]
+  | _ => [[1; 97]]
+  end.
